@@ -32,6 +32,7 @@
 #include <signal.h>
 #include <sys/mman.h>
 #include <sys/wait.h>
+#include <malloc.h>
 #include "kdumpfile-priv.h"
 #include "hcommon.h"
 #include <libkdumpfile/addrxlat.h>
@@ -39,7 +40,7 @@
 /* ------------------------------------------------------------ shared result */
 struct result {
 	char stage[16], ret[32], follow[96], par[96];
-	unsigned long inj, cnt;
+	unsigned long inj, cnt, shrink;
 	long locks, leak;
 	int deadlock, badunlock;
 	unsigned tlen;
@@ -57,7 +58,7 @@ static void tev(const char *fmt, unsigned long v)
 /* ------------------------------------------------------------ allocator */
 void *__real_malloc(size_t); void *__real_calloc(size_t, size_t);
 void *__real_realloc(void *, size_t); void __real_free(void *);
-static unsigned long alloc_count, alloc_fail_at, alloc_failed;
+static unsigned long alloc_count, alloc_fail_at, alloc_failed, alloc_failed_shrink;
 static long alloc_live;
 #define PT 65536
 static struct { void *p; unsigned long id; } ptab[PT];	/* live library blocks; id 0 = allocated outside the window */
@@ -99,7 +100,11 @@ void *__wrap_realloc(void *p, size_t n)
 {
 	void *r; long id;
 	if (!p) return __wrap_malloc(n);
-	if (should_fail()) return NULL;
+	if (should_fail()) {
+		/* a request to make a block smaller: the caller may ignore that it was refused */
+		if (n <= malloc_usable_size(p)) ++alloc_failed_shrink;
+		return NULL;
+	}
 	r = __real_realloc(p, n);
 	if (r) { id = pt_del(p); pt_add(r, id < 0 ? 0 : id); tev("r%lu ", alloc_count); }
 	return r;
@@ -222,12 +227,13 @@ static unsigned char content_byte(uint64_t pa)
 static void stage(const char *s) { snprintf(RES->stage, sizeof RES->stage, "%s", s); }
 static void window_open(unsigned long n)
 {
-	alloc_count = 0; alloc_failed = 0; alloc_fail_at = n; nseen = 0; in_window = 1;
+	alloc_count = 0; alloc_failed = 0; alloc_failed_shrink = 0; alloc_fail_at = n; nseen = 0; in_window = 1;
 }
 static void window_close(void)
 {
 	in_window = 0; alloc_fail_at = 0;
 	RES->inj += alloc_failed;
+	RES->shrink += alloc_failed_shrink;
 	if (alloc_count > RES->cnt) RES->cnt = alloc_count;
 	if (locks_held() > RES->locks) RES->locks = locks_held();
 }
@@ -301,6 +307,67 @@ static kdump_ctx_t *fresh(int nslots, const char *path, int policy, int *fdp)
 	return ctx;
 }
 
+
+/* clones of an object: flags letter per clone ('0' plain, 'x' KDUMP_CLONE_XLAT) */
+#define MAXCL 8
+static kdump_ctx_t *CL[MAXCL]; static int NCL;
+static void mkclones(kdump_ctx_t *ctx, int n, int xlat_odd)
+{
+	for (NCL = 0; NCL < n && NCL < MAXCL; ++NCL) {
+		CL[NCL] = kdump_clone(ctx, (xlat_odd && (NCL & 1)) ? KDUMP_CLONE_XLAT : 0);
+		if (!CL[NCL]) { follow("setup:clone-%d", NCL); break; }
+	}
+}
+static void clones_alive(const uint64_t *pages, int np, size_t ps)
+{
+	int i; char who[16];
+	for (i = 0; i < NCL; ++i) {
+		snprintf(who, sizeof who, "clone%d", i);
+		ctx_alive(CL[i], who);
+		sweep(CL[i], pages, np, ps, who);
+	}
+}
+static kdump_status set_num(kdump_ctx_t *ctx, const char *key, uint64_t v)
+{
+	kdump_attr_t a; a.type = KDUMP_NUMBER; a.val.number = v;
+	return kdump_set_attr(ctx, key, &a);
+}
+/* attribute query: numbers are reported, bitmaps are compared bit by bit with the expected frame set */
+static kdump_status query_attr(kdump_ctx_t *ctx, const char *key, const uint64_t *exp, int nexp, size_t ps, char *val, size_t vlen)
+{
+	kdump_attr_t a; kdump_status st;
+	static unsigned char raw[1024]; unsigned i, nbits = 512; int k;
+	st = kdump_get_attr(ctx, key, &a);
+	snprintf(val, vlen, "-");
+	if (st != KDUMP_OK) return st;
+	if (a.type == KDUMP_NUMBER) snprintf(val, vlen, "%llu", (unsigned long long)a.val.number);
+	else if (a.type == KDUMP_BITMAP) {
+		kdump_addr_t idx = 0;
+		static unsigned char want_bit[8 * sizeof raw];
+		memset(raw, 0xA5, sizeof raw);
+		memset(want_bit, 0, sizeof want_bit);
+		for (k = 0; k < nexp; ++k) {
+			if (exp[k] / ps >= 8 * sizeof raw) continue;
+			want_bit[exp[k] / ps] = 1;
+			if (exp[k] / ps + 64 > nbits) nbits = (exp[k] / ps + 64) & ~7u;
+		}
+		if (nbits > 8 * sizeof raw) nbits = 8 * sizeof raw;
+		st = kdump_bmp_get_bits(a.val.bitmap, 0, nbits - 1, raw);
+		if (st != KDUMP_OK) return st;
+		for (i = 0; i < nbits; ++i) {
+			int want = want_bit[i], got = (raw[i >> 3] >> (i & 7)) & 1;
+			if (want != got) { snprintf(val, vlen, "bit-%u-is-%d", i, got); return st; }
+		}
+		if (nexp) {
+			st = kdump_bmp_find_set(a.val.bitmap, &idx);
+			if (st != KDUMP_OK) return st;
+			for (k = 0; k < nexp; ++k) if (exp[k] / ps < idx) { snprintf(val, vlen, "find_set-%llu", (unsigned long long)idx); return st; }
+		}
+		snprintf(val, vlen, "bits-ok");
+	} else snprintf(val, vlen, "type%d", (int)a.type);
+	return st;
+}
+
 /* ------------------------------------------------------------ scenarios */
 static addrxlat_status no_page(const addrxlat_cb_t *cb, addrxlat_buffer_t *buf)
 {
@@ -311,7 +378,7 @@ static unsigned long no_caps(const addrxlat_cb_t *cb) { return 0; }
 static void run_case(const char *sc, unsigned long n, int argc, char **argv)
 {
 	const char *path = argc > 0 ? argv[0] : "-";
-	int fd = -1;
+	int fd = -1, fd0 = -1;
 	uint64_t pages[256]; int np = 0;
 	size_t ps = 4096;
 	kdump_ctx_t *ctx = NULL, *ctx2 = NULL;
@@ -354,13 +421,21 @@ static void run_case(const char *sc, unsigned long n, int argc, char **argv)
 			if (ctx2) { ctx_alive(ctx2, "clone"); sweep(ctx2, pages, np, ps, "clone"); }
 		}
 	} else if (!strcmp(sc, "open")) {
-		/* open <path> <policy> <pages> [reps: the faulted call is made this many times] */
+		/* open <path> <policy> <pages> [reps: the faulted call is made this many times] [clones made before the open]
+		 *      [dump that the object has open already] */
 		int policy = argc > 1 ? atoi(argv[1]) : -1;
 		int reps = argc > 3 ? atoi(argv[3]) : 1;
+		int ncl = argc > 4 ? atoi(argv[4]) : 0;
 		kdump_status st;
 		if (argc > 2) np = parse_list(argv[2], pages, 256);
-		ctx = fresh(0, "-", policy, &fd);
+		/* a leading '!' = a file that is not a dump: that first open fails and leaves its file cache behind */
+		ctx = fresh(0, argc > 5 && argv[5][0] != '!' ? argv[5] : "-", policy, &fd0);
 		if (!ctx) return;
+		if (argc > 5 && argv[5][0] == '!') {
+			fd0 = open(argv[5] + 1, O_RDONLY);
+			if (kdump_open_fd(ctx, fd0) == KDUMP_OK) follow("setup:not-a-dump-opened");
+		}
+		mkclones(ctx, ncl, 0);
 		fd = open(path, O_RDONLY);
 		stage("call");
 		do {
@@ -379,11 +454,15 @@ static void run_case(const char *sc, unsigned long n, int argc, char **argv)
 			ctx_alive(ctx, "ctx");
 			if (st == KDUMP_OK) sweep(ctx, pages, np, ps, "opened");
 			else {
+				int good;
+				/* whatever the object still knows about, asking it for a page must be safe */
+				if (np) (void)rd_page(ctx, KDUMP_MACHPHYSADDR, pages[0], pages[0], ps, &good);
 				/* the surviving object can be used for another attempt */
 				st = kdump_open_fd(ctx, fd);
 				if (st != KDUMP_OK) follow("reopen-%s", kstatus_name(st));
 				else sweep(ctx, pages, np, ps, "reopened");
 			}
+			if (st == KDUMP_OK) clones_alive(pages, np, ps);
 		}
 	} else if (!strcmp(sc, "read")) {
 		/* read <path> <policy> <as> <addr-delta> <cache> <pages: read in this order, each with the fault armed> */
@@ -392,9 +471,12 @@ static void run_case(const char *sc, unsigned long n, int argc, char **argv)
 		int cache = atoi(argv[4]);
 		int bad = 0;
 		kdump_status st = KDUMP_OK, worst = KDUMP_OK;
+		kdump_ctx_t *rctx;
 		np = parse_list(argv[5], pages, 256);
 		ctx = fresh(0, path, policy, &fd);
 		if (!ctx) return;
+		mkclones(ctx, argc > 6 ? atoi(argv[6]) : 0, 0);
+		rctx = NCL ? CL[NCL - 1] : ctx;
 		if (cache > 0) { kdump_attr_t a; a.type = KDUMP_NUMBER; a.val.number = cache; kdump_set_attr(ctx, "cache.size", &a); }
 		if (as != KDUMP_MACHPHYSADDR) {
 			/* paging form given here; the translation system itself is built inside the first read */
@@ -403,27 +485,98 @@ static void run_case(const char *sc, unsigned long n, int argc, char **argv)
 		}
 		stage("call");
 		for (i = 0; i < np; ++i) {
-			unsigned long inj0 = RES->inj;
+			unsigned long inj0 = RES->inj, shr0 = RES->shrink;
 			window_open(n);
-			st = rd_page(ctx, as, pages[i] + delta, pages[i], ps, &good);
+			st = rd_page(rctx, as, pages[i] + delta, pages[i], ps, &good);
 			window_close();
 			if (RES->inj != inj0) {		/* this read hit the failing allocation */
-				if (st == KDUMP_OK) { ++bad; }
+				if (st == KDUMP_OK) { if (RES->shrink - shr0 < RES->inj - inj0) ++bad; else if (!good) follow("read-%d-wrong-data", i); }
 				else if (worst == KDUMP_OK || st != KDUMP_ERR_SYSTEM) worst = st;
-				if (*c16_monitor(ctx, st) && !strstr(RES->par, "C16")) snprintf(RES->par, sizeof RES->par, "%s", c16_monitor(ctx, st) + 1);
+				if (*c16_monitor(rctx, st) && !strstr(RES->par, "C16")) snprintf(RES->par, sizeof RES->par, "%s", c16_monitor(rctx, st) + 1);
 			} else if (!good)
 				follow("read-%d-without-fault-%s", i, st == KDUMP_OK ? "wrong-data" : kstatus_name(st));
 			if (RES->locks) break;
 			/* the same read again, memory being available */
-			st = rd_page(ctx, as, pages[i] + delta, pages[i], ps, &good);
+			st = rd_page(rctx, as, pages[i] + delta, pages[i], ps, &good);
 			if (!good) {
-				if (!strcmp(RES->follow, "ok")) snprintf(RES->par, sizeof RES->par, "err=%.80s", st == KDUMP_OK ? "" : kdump_get_err(ctx));
+				if (!strcmp(RES->follow, "ok")) snprintf(RES->par, sizeof RES->par, "err=%.80s", st == KDUMP_OK ? "" : kdump_get_err(rctx));
 				follow("reread-%d-%s", i, st == KDUMP_OK ? "wrong-data" : kstatus_name(st));
 			}
 		}
 		snprintf(RES->ret, sizeof RES->ret, "%s", RES->inj ? (bad ? "ok" : kstatus_name(worst)) : "ok");
 		stage("followup");
-		if (RES->locks == 0) { ctx_alive(ctx, "ctx"); sweep(ctx, pages, np, ps, "ctx"); }
+		if (RES->locks == 0) { ctx_alive(ctx, "ctx"); sweep(ctx, pages, np, ps, "ctx"); clones_alive(pages, np, ps); }
+	} else if (!strcmp(sc, "setattr")) {
+		/* setattr <path> <policy> <pages> <clones> <key> <new value> <value to restore>: a number attribute of an
+		 * opened dump that has clones is changed with the fault armed, then put back */
+		int policy = atoi(argv[1]), ncl = atoi(argv[3]);
+		const char *key = argv[4];
+		uint64_t nv = strtoull(argv[5], NULL, 0), ov = strtoull(argv[6], NULL, 0);
+		kdump_status st;
+		np = parse_list(argv[2], pages, 256);
+		ctx = fresh(0, path, policy, &fd);
+		if (!ctx) return;
+		mkclones(ctx, ncl, 1);
+		sweep(ctx, pages, np, ps, "setup");
+		stage("call"); window_open(n);
+		st = set_num(NCL > 1 ? CL[0] : ctx, key, nv);
+		window_close();
+		snprintf(RES->ret, sizeof RES->ret, "%s%s", kstatus_name(st), c16_monitor(NCL > 1 ? CL[0] : ctx, st));
+		snprintf(RES->par, sizeof RES->par, "clones=%d", NCL);
+		stage("followup");
+		if (RES->locks == 0) {
+			st = set_num(ctx, key, ov);
+			if (st != KDUMP_OK) follow("restore-%s-%s", key, kstatus_name(st));
+			else { sweep(ctx, pages, np, ps, "ctx"); ctx_alive(ctx, "ctx"); clones_alive(pages, np, ps); }
+		}
+	} else if (!strcmp(sc, "getattr")) {
+		/* getattr <path> <policy> <pages> <clones> <key> [frames expected in a bitmap]: an attribute that is
+		 * computed on first use (page maps, max_pfn) is asked for with the fault armed */
+		int policy = atoi(argv[1]), ncl = atoi(argv[3]);
+		const char *key = argv[4];
+		static uint64_t exp[4400]; int nexp = argc > 5 ? parse_list(argv[5], exp, 4400) : 0;
+		char val[48], val2[48];
+		kdump_status st;
+		np = parse_list(argv[2], pages, 256);
+		ctx = fresh(0, path, policy, &fd);
+		if (!ctx) return;
+		mkclones(ctx, ncl, 0);
+		stage("call"); window_open(n);
+		st = query_attr(NCL ? CL[NCL - 1] : ctx, key, exp, nexp, ps, val, sizeof val);
+		window_close();
+		snprintf(RES->ret, sizeof RES->ret, "%s", kstatus_name(st));
+		snprintf(RES->par, sizeof RES->par, "val=%s", val);
+		stage("followup");
+		if (RES->locks == 0) {
+			sweep(ctx, pages, np, ps, "ctx");
+			st = query_attr(ctx, key, exp, nexp, ps, val2, sizeof val2);
+			if (st != KDUMP_OK) follow("second-query-%s", kstatus_name(st));
+			else if (!strncmp(val2, "bit-", 4) || !strncmp(val2, "find_set", 8)) follow("second-query-%s", val2);
+			else snprintf(RES->par, sizeof RES->par, "val=%s,then=%s", val, val2);
+			ctx_alive(ctx, "ctx");
+			clones_alive(pages, np, ps);
+		}
+	} else if (!strcmp(sc, "slot")) {
+		/* slot <contexts> <size> [slots in use before]: per_ctx_alloc on an object with that many contexts */
+		int nctx = atoi(argv[0]), pre = argc > 2 ? atoi(argv[2]) : 0, slot;
+		size_t sz = strtoul(argv[1], NULL, 0);
+		ctx = fresh(pre, "-", -1, &fd);
+		if (!ctx) return;
+		mkclones(ctx, nctx - 1, 0);
+		stage("call"); window_open(n);
+		slot = per_ctx_alloc(ctx->shared, sz);
+		window_close();
+		strcpy(RES->ret, slot >= 0 ? "obj" : "null");
+		snprintf(RES->par, sizeof RES->par, "slot=%d,size=%zu", slot, ctx->shared->per_ctx_size[slot >= 0 ? slot : pre]);
+		stage("followup");
+		if (slot < 0 && ctx->shared->per_ctx_size[pre]) follow("slot-%d-stays-taken", pre);
+		if (slot >= 0) {
+			int i;
+			memset(ctx->data[slot], 0x5a, sz);
+			for (i = 0; i < NCL; ++i) memset(CL[i]->data[slot], 0x5a, sz);
+			per_ctx_free(ctx->shared, slot);
+		}
+		ctx_alive(ctx, "ctx");
 	} else if (!strcmp(sc, "xlat")) {
 		/* xlat <path>: give the paging form of an opened dump and ask for the translation objects (builds the hardware maps) */
 		kdump_attr_t a; kdump_status st;
@@ -541,9 +694,12 @@ static void run_case(const char *sc, unsigned long n, int argc, char **argv)
 
 	stage("free");
 	if (RES->locks == 0) {
+		int i;
+		for (i = 0; i < NCL; ++i) if (CL[i]) kdump_free(CL[i]);
 		if (ctx2) kdump_free(ctx2);
 		if (ctx) kdump_free(ctx);
 		if (fd >= 0) close(fd);
+		if (fd0 >= 0) close(fd0);
 		RES->leak = alloc_live;
 	} else
 		RES->leak = -1;		/* cannot free an object whose lock is held */
@@ -600,9 +756,13 @@ int main(void)
 			else snprintf(end, sizeof end, "exit%d@%s", WEXITSTATUS(status), RES->stage);
 		}
 		if (in_window) in_window = 0;
-		printf("> %s n=%s ret=%s inj=%lu cnt=%lu locks=%ld leak=%ld follow=%s end=%s%s%s%s\n", tok[1], tok[2],
-		       RES->ret, RES->inj, RES->cnt, RES->locks, RES->leak, RES->follow, end,
-		       "", *RES->par ? " par=" : "", RES->par);
+	{
+			char shr[24] = "";
+			if (RES->shrink) snprintf(shr, sizeof shr, " shrink=%lu", RES->shrink);
+			printf("> %s n=%s ret=%s inj=%lu cnt=%lu locks=%ld leak=%ld follow=%s end=%s%s%s%s\n", tok[1], tok[2],
+			       RES->ret, RES->inj, RES->cnt, RES->locks, RES->leak, RES->follow, end,
+			       shr, *RES->par ? " par=" : "", RES->par);
+		}
 		if (atoi(tok[3]))
 			printf("> T %s n=%s %s\n", tok[1], tok[2], RES->trace);
 	}
